@@ -371,6 +371,12 @@ class Verdict:
         if self.drift:
             print("SPEC-DRIFT property=%s cases=%d (real output differs from the specification's prediction; "
                   "property predicate holds) e.g. %s" % (self.pid, self.drift, json.dumps(self.drift_samples[:1], ensure_ascii=False)[:600]))
+        if os.environ.get("VERIF_DEBUG_SIGS"):
+            import collections
+            cnt = collections.Counter(re.sub(r" flags=.*$", "", sig) for sig, _ in self.violations)
+            with open(os.environ["VERIF_DEBUG_SIGS"], "w") as f:
+                for k, n in cnt.most_common():
+                    f.write("%6d %s\n" % (n, k))
         if self.violations:
             rdir = os.path.join(VERIF, "replays", self.pid)
             os.makedirs(rdir, exist_ok=True)
